@@ -37,20 +37,17 @@ impl Gen {
     }
 
     pub fn scalar(&mut self) -> Value {
-        // now and then a value from the edges: integers at the 32/53/64-bit boundaries, text with a
-        // byte-order mark, a backslash, the replacement character, CJK, and a 170-byte string whose
-        // 128th byte lies inside a multi-byte character
+        // now and then a text from the edges: a byte-order mark, a backslash, the replacement character,
+        // CJK, and a 170-byte string whose 128th byte lies inside a multi-byte character.  (No integers
+        // at the 32/53/64-bit boundaries here: arithmetic filters continue in floating point on overflow
+        // and printing a computed float is outside the interpreter model -- C15 covers those with its
+        // own float oracle.)
         if self.rng.chance(1, 12) {
-            return match self.rng.below(10) {
-                0 => Value::scalar(2147483648i64),
-                1 => Value::scalar(4294967295i64),
-                2 => Value::scalar(9007199254740993i64),
-                3 => Value::scalar(i64::MAX),
-                4 => Value::scalar(i64::MIN),
-                5 => Value::scalar("\u{feff}b"),
-                6 => Value::scalar("a\\b"),
-                7 => Value::scalar("\u{fffd}"),
-                8 => Value::scalar("\u{65e5}\u{672c}"),
+            return match self.rng.below(5) {
+                0 => Value::scalar("\u{feff}b"),
+                1 => Value::scalar("a\\b"),
+                2 => Value::scalar("\u{fffd}"),
+                3 => Value::scalar("\u{65e5}\u{672c}"),
                 _ => Value::scalar(format!("{}\u{e9}\u{65e5}\u{672c}{}", "a".repeat(127), "\u{e9}".repeat(18))),
             };
         }
